@@ -50,7 +50,8 @@ class Oracles:
         self.L = sim.layout
         self.P = lambda p: p in self.props
         self.twins = bool(self.props & {"C01", "C02", "C03", "C05", "C07",
-                                        "C08", "C13", "C04", "C06"})
+                                        "C08", "C13", "C04", "C06"}) and \
+            not getattr(sim, "quiet", False)
         self.boot_done = False
 
     # ------------------------------------------------------------------
@@ -97,13 +98,19 @@ class Oracles:
         into its argument cannot launder the pre-state)."""
         cache = self.sim.__dict__.setdefault("_pre_cache", {})
         ent = cache.get(id(state))
-        if ent is not None and ent[0] is state:
+        if ent is not None and ent[0]() is state:
             return ent[1], ent[2]
         st = sim_read(self.sim, state)
         t = state.tensor.copy()
         if len(cache) > 64:
             cache.clear()
-        cache[id(state)] = (state, st, t)
+        # a weak reference: the harness must not keep alive what the caller
+        # has dropped (when objects die is part of the simulation)
+        import weakref
+        try:
+            cache[id(state)] = (weakref.ref(state), st, t)
+        except TypeError:
+            cache[id(state)] = ((lambda s=state: s), st, t)
         return st, t
 
     # ------------------------------------------------------------------
@@ -1509,6 +1516,7 @@ class Oracles:
             self._c11_mask()
             from . import actionspace
             actionspace.check_rebuild(self)
+            actionspace.check_decode_sample(self)
         elif what in ("readable", "roundtrip") and self.P("C09"):
             self._c09_roundtrip(env.current_state)
         elif what == "contains" and self.P("C10") and \
